@@ -272,6 +272,14 @@ def run_world(rng, res, idx):
     cfg = kh.make_config(rng, callables=False, dtypes=('float64',), inv_dtypes=('float32', 'float64'), kl=('const', 'big'), max_acc=2)
     cfg['k'] = rng.choice(scenario.divisors(W))
     cfg['colocate'] = True if (cfg['method'] == 'eigen' and cfg['prediv']) else rng.random() < 0.5
+    if rng.random() < 0.4:
+        # factors move every step, second-order data is refreshed rarely: most boundaries are then stale ones
+        cfg['F'], cfg['I'] = ('const', 1), ('const', rng.choice([2, 3]))
+        # ... and they are the ones the cross-strategy reference below is for: float64 second-order data, and mostly the
+        # configuration in which a roll-back into the live preconditioner is generated
+        cfg['idt'] = 'float64'
+        if rng.random() < 0.7:
+            cfg['hook'], cfg['acc'] = True, 1
     F, I = cfg['F'][1], cfg['I'][1]
     T = rng.randint(3, 6)
     base_spec = dict(model_seed=rng.randrange(10 ** 6), data_seed=rng.randrange(10 ** 6), batch=rng.randint(1, 3), cfg=cfg, history=[('train',)] * T, record=[], sgd_lr=0.05)
@@ -292,7 +300,8 @@ def run_world(rng, res, idx):
         compute = True
         if rng.random() < 0.2 and c % I == 0 and c > 0:
             compute = False
-        rollback = cfg['hook'] and cfg['acc'] == 1 and c > 0 and rng.random() < 0.35
+        stale_c = not ((c % I == 0) or (max([t for t in range(c) if t % F == 0], default=-1) <= max([t for t in range(c) if t % I == 0], default=-1)))
+        rollback = cfg['hook'] and cfg['acc'] == 1 and c > 0 and rng.random() < (0.7 if stale_c else 0.35)
         if rollback:
             compute = True
             res.count('world_rollbacks_into_live_preconditioner')
@@ -323,6 +332,29 @@ def run_world(rng, res, idx):
                         return res.violation(f'checkpoint at boundary {c} on {W} ranks (k={cfg["k"]}, F={F}, I={I}): rank {r} gradient at step {t} differs from the uninterrupted run by {e:.3e}', case, c=c)
                 if r > 0 and not torch.equal(a, run.results[0]['grads'][t]):
                     return res.violation(f'checkpoint at boundary {c}: after resuming, rank {r} and rank 0 disagree at step {t}', case, c=c)
+        if not must_equal and T > c and cfg['idt'] == 'float64':
+            # (float64 second-order data only: strategies legitimately differ by rounding of the inverse dtype times the
+            # conditioning - e.g. a symmetric broadcast re-symmetrises an inverse that MEM-OPT uses as computed - and a
+            # fixed 1e-6 was a false alarm for float32 inverses on the first seed sweep)
+            # stale boundary: no uninterrupted run to compare with. Metamorphic reference: the SAME checkpointed history under
+            # another gradient-worker count must give the same gradients (only who computes and who receives differs) - a
+            # restore that goes wrong under one strategy only, identically on all its ranks, shows here
+            others = [k2 for k2 in scenario.divisors(W) if k2 != cfg['k']]
+            spec2 = copy.deepcopy(spec)
+            spec2['cfg']['k'] = rng.choice(others)
+            run2 = scenario.run(spec2, W, seed=seed + 100 + c, policy='round_robin')
+            if run2.inconclusive:
+                res.inconclusive.append('simulator watchdog fired')
+                return
+            if not run2.failed():
+                res.count('world_stale_boundary_cross_strategy_checks')
+                for t in range(c, T):
+                    e = kh.rel_err(run.results[0]['grads'][t], run2.results[0]['grads'][t])
+                    if not e <= 1e-6:
+                        return res.violation(f'checkpoint at stale boundary {c} on {W} ranks: gradients at step {t} with {cfg["k"]} gradient workers differ from those of the same '
+                                             f'checkpointed history with {spec2["cfg"]["k"]} gradient workers by {e:.3e}', case, c=c, k2=spec2['cfg']['k'])
+            else:
+                return res.violation(f'checkpoint at boundary {c} on {W} ranks (k={spec2["cfg"]["k"]}): load/continue failed: ' + run2.failure_summary(), case, c=c)
         if cfg['k'] < W:
             res.nontrivial.add(stable_hash('world', W, cfg, c))
     res.sample(dict(idx=idx, kind='world', W=W, k=cfg['k'], T=T, cfg={kk: cfg[kk] for kk in ('method', 'prediv', 'F', 'I', 'cap', 'sym')}))
